@@ -79,8 +79,22 @@ def main(tier, seed):
             q = sess.prove(f"{label}[d={d}]:binds-low,high,(high-low)/2", [], z3.And(*goals))
             if q.verdict != "unsat":
                 rep.violation(f"{label}:bound-arguments", "sampler is not bound to (low, high, (high-low)/2)", {"args": [str(a) for a in args[:3]]})
-            if tuple(args[3:]) != tuple(extra):
-                rep.violation(f"{label}:noise-arguments", f"noise parameters bound as {args[3:]} instead of {extra}", {})
+            same = len(args[3:]) == len(extra)
+            noise_goals = []
+            for a_, e_ in zip(args[3:], extra):
+                for x in np.asarray(a_, dtype=object).reshape(-1):
+                    noise_goals.append(V.to_z3(V.s_cmp("eq", x if isinstance(x, z3.ExprRef) else V.norm_conc(x), V.norm_conc(e_))))
+            qn = sess.prove(f"{label}[d={d}]:binds-the-configured-noise-level-and-noise-clip-unscaled", [z3.And(*[lo_s[k] < hi_s[k] for k in range(d)])], z3.And(*noise_goals) if noise_goals else True)
+            if not same or qn.verdict != "unsat":
+                # replay on a real Box: the bound partial's noise arguments must be exactly the configured scalars
+                rb_ = gym.spaces.Box(low=np.full(d, -0.5, dtype=np.float32), high=np.full(d, 0.25, dtype=np.float32))
+                real = maker(rb_, *extra)
+                rargs = (getattr(real, "fun", None) or getattr(real, "__wrapped__")).args[3:]
+                rep.replayed += 1
+                if not all(np.allclose(np.asarray(a_, dtype=float), e_) for a_, e_ in zip(rargs, extra)) or len(rargs) != len(extra):
+                    rep.violation(f"{label}:noise-arguments", f"noise parameters bound as {[np.asarray(a_).tolist() for a_ in rargs]} instead of {extra} (Box [-0.5,0.25]^{d})", {})
+                else:
+                    rep.inconclusive_(f"{label}:noise-arguments", "symbolic mismatch did not reproduce")
         rep.functions.append({"site": "make_sample_actions/make_sample_target_actions", "mode": "real code executed on numpy object arrays of z3 reals"})
 
         # ---- exploration sampler
